@@ -9,6 +9,7 @@ from leuvenmapmatching.map.inmem import InMemMap
 from leuvenmapmatching.map.sqlite import SqliteMap
 from leuvenmapmatching.matcher.simple import SimpleMatcher
 from leuvenmapmatching.matcher.distance import DistanceMatcher
+from leuvenmapmatching.matcher.newsonkrumm import NewsonKrummMatcher
 
 _counter = itertools.count()
 
@@ -68,6 +69,10 @@ def matcher_kwargs(cfg):
         if cfg.get("dist_noise") is not None:
             kw["dist_noise"] = cfg["dist_noise"]
         kw["restrained_ne"] = cfg.get("restrained_ne", True)
+    elif cfg["family"] == "newsonkrumm":
+        kw.pop("avoid_goingback", None)
+        if cfg.get("beta") is not None:
+            kw["beta"] = cfg["beta"]
     else:
         kw["only_edges"] = cfg["family"] == "simple"
     return kw
@@ -77,6 +82,8 @@ def make_matcher(mp, cfg):
     kw = matcher_kwargs(cfg)
     if cfg["family"] == "distance":
         return DistanceMatcher(mp, **kw)
+    if cfg["family"] == "newsonkrumm":
+        return NewsonKrummMatcher(mp, **kw)
     return SimpleMatcher(mp, **kw)
 
 
